@@ -37,7 +37,8 @@
 (*           highest weight and advance to slots with lower weight."              *)
 EXTENDS Integers, Sequences, FiniteSets
 
-VARIABLE v          \* [slots, order, ssize, aalign, bused]
+VARIABLES v,         \* [slots, order, ssize, aalign, bused]
+          scale      \* sizes and offsets are in units of `scale` bytes (1, or 4096 in the executions that probe the 32-bit limits)
 
 RegHome  == 1
 StackArg == 2
@@ -52,13 +53,15 @@ IsArg(s)  == HasFlag(s.flags, StackArg)
 IsHome(s) == HasFlag(s.flags, RegHome)
 Max(a, b) == IF a >= b THEN a ELSE b
 IsPow2(a) == a \in {1, 2, 4, 8, 16, 32, 64, 128}
+(* x * scale is a multiple of a (computed without leaving TLC's 32-bit integers) *)
+Aligned(x, a) == (((x % a) + a) % a) * (scale % a) % a = 0
 
 Slot(t) == [size |-> t[1], align |-> t[2], flags |-> t[3], uc |-> t[4], w |-> t[5], off |-> t[6], base |-> t[7]]
 View(st) == [slots |-> [i \in 1 .. Len(st.slots) |-> Slot(st.slots[i])], order |-> st.order,
              ssize |-> st.ssize, aalign |-> st.aalign, bused |-> st.bused]
 
 Empty == [slots |-> <<>>, order |-> <<>>, ssize |-> 0, aalign |-> 1, bused |-> 0]
-Init == v = Empty
+Init == v = Empty /\ scale = 1
 
 (* the observation itself is well formed: accessor predicates agree with the flags, slots() is a permutation of   *)
 (* the created slots, scaled quantities were exact multiples of the scale                                         *)
@@ -128,10 +131,10 @@ Disjoint(a, b) == a.size = 0 \/ b.size = 0 \/ a.off + a.size <= b.off \/ b.off +
 
 (* the layout itself: what every user of the frame relies on *)
 LayoutOk(ss, ssz, al) ==
-  /\ \A i \in Placed(ss) : ss[i].off >= 0 /\ ss[i].off % ss[i].align = 0
+  /\ \A i \in Placed(ss) : ss[i].off >= 0 /\ Aligned(ss[i].off, ss[i].align)
   /\ \A i \in Placed(ss) : \A j \in Placed(ss) : i < j => B(Disjoint(ss[i], ss[j]))
   /\ \A i \in Placed(ss) : ss[i].off + ss[i].size <= ssz
-  /\ ssz >= 0 /\ ssz % al = 0
+  /\ ssz >= 0 /\ Aligned(ssz, al)
 
 (* the weights as far as STEP 1 documents them (register-home slots only) *)
 WeightDoc(ss) ==
